@@ -834,14 +834,21 @@ impl KotoVm {
                     error.clone(),
                     !matches!(error.error, ErrorKind::Timeout(_)),
                 ) {
-                    Ok((recover_register, ip)) => {
+                    Ok(catch_point) => {
                         let catch_value = match error.error {
                             ErrorKind::KotoError { thrown_value, .. } => thrown_value,
                             _ => KValue::Str(error.to_string().into()),
                         };
 
-                        self.set_register(recover_register, catch_value);
-                        self.set_ip(ip);
+                        // Discard any sequences or strings that were being built when the error
+                        // was thrown.
+                        self.sequence_builders
+                            .truncate(catch_point.sequence_builder_count);
+                        self.string_builders
+                            .truncate(catch_point.string_builder_count);
+
+                        self.set_register(catch_point.error_register, catch_value);
+                        self.set_ip(catch_point.catch_ip);
                     }
                     Err(mut error) => {
                         // The error hasn't been caught, so is being propagated outside of this.
@@ -1124,8 +1131,13 @@ impl KotoVm {
                 arg_register,
                 catch_offset,
             } => {
-                let catch_ip = self.ip() + catch_offset as u32;
-                self.frame_mut().catch_stack.push((arg_register, catch_ip));
+                let catch_point = CatchPoint {
+                    error_register: arg_register,
+                    catch_ip: self.ip() + catch_offset as u32,
+                    sequence_builder_count: self.sequence_builders.len(),
+                    string_builder_count: self.string_builders.len(),
+                };
+                self.frame_mut().catch_stack.push(catch_point);
             }
             TryEnd => {
                 self.frame_mut().catch_stack.pop();
@@ -3690,13 +3702,13 @@ impl KotoVm {
         &mut self,
         mut error: Error,
         allow_catch: bool,
-    ) -> Result<(u8, u32)> {
+    ) -> Result<CatchPoint> {
         error.extend_trace(self.instruction_frame());
 
         while let Some(frame) = self.call_stack.last() {
             match frame.catch_stack.last() {
-                Some((error_register, catch_ip)) if allow_catch => {
-                    return Ok((*error_register, *catch_ip));
+                Some(catch_point) if allow_catch => {
+                    return Ok(*catch_point);
                 }
                 _ => {
                     if frame.execution_barrier {
@@ -3995,7 +4007,7 @@ struct Frame {
     // When returning to this frame, the register that should receive the return value
     pub return_value_register: Option<u8>,
     // A stack of catch points for handling errors
-    pub catch_stack: Vec<(u8, u32)>, // catch error register, catch ip
+    pub catch_stack: Vec<CatchPoint>,
     // True if the frame should prevent execution from continuing after the frame is exited.
     // e.g.
     //   - a function is being called externally from the VM
@@ -4003,6 +4015,19 @@ struct Frame {
     //   - an external function is calling back into the VM with a functor
     //   - a module is being imported
     pub execution_barrier: bool,
+}
+
+// A catch point for handling errors, see `Frame::catch_stack`
+#[derive(Clone, Copy, Debug)]
+struct CatchPoint {
+    // The register that should receive the caught error
+    error_register: u8,
+    // The ip of the catch block
+    catch_ip: u32,
+    // The number of active sequence builders when the try block was entered
+    sequence_builder_count: usize,
+    // The number of active string builders when the try block was entered
+    string_builder_count: usize,
 }
 
 impl Frame {
